@@ -309,5 +309,30 @@ Definition C17T_ok (c : c17tcase) : bool :=
   | KPullLight s ms eofs fa evs obs => pull_ok light_spec_p Qeq_bool ms eofs fa s evs obs
   end.
 
+(* strategy One (4): the members run one after the other; compared with [pull_one] of TraitGroup.v part C
+   (scheduler-dependent events excluded); the closed form [C17T_ok] does not cover it (the guard is false) *)
+Definition is_one (c : c17tcase) : bool :=
+  match c with
+  | KUnary _ _ _ _ _ _ _ => false
+  | KPullOnOff s _ _ _ _ _ => s =? 4
+  | KPullLight s _ _ _ _ _ => s =? 4
+  end.
+Definition light_hist_one (n : nat) (evs : list (pevent Q)) : list (nat * Q) :=
+  flat_map (fun e => match e with
+                     | EMsg i chs => match rev chs with (v, _) :: _ => [(i, v)] | [] => [] end
+                     | _ => []
+                     end) evs.
+Definition tagrees_one (c : c17tcase) : bool :=
+  match c with
+  | KUnary _ _ _ _ _ _ _ => true
+  | KPullOnOff s ms eofs fa evs obs =>
+      let st := pull_one onoff_reduce_p Z.eqb ms fa evs in
+      o_nondet st || pobs_eqb Z.eqb obs (pobs_of_one ms eofs st)
+  | KPullLight s ms eofs fa evs obs =>
+      let st := pull_one light_reduce_p Qeq_bool ms fa evs in
+      o_nondet st || negb (hist_exact (List.length ms) (light_hist_one (List.length ms) evs))
+      || pobs_eqb Qeq_bool obs (pobs_of_one ms eofs st)
+  end.
+
 Definition tjudge (c : c17tcase) : Z :=
-  verdict (tagrees c) (if C17T_guard c then C17T_ok c else true) None.
+  verdict (if is_one c then tagrees_one c else tagrees c) (if C17T_guard c then C17T_ok c else true) None.
